@@ -15,6 +15,7 @@ import (
 	"bytes"
 	"context"
 	"fmt"
+	"github.com/buildbarn/bb-remote-execution/pkg/proto/outputpathpersistency"
 	"io"
 	"sort"
 	"strings"
@@ -639,6 +640,7 @@ func (c *c16client) step() {
 	add(6, hasFrozen, c.readFrozen)
 	add(5, hasFrozen, func() { c.closeFrozen(t.Choice(len(c.frozen))) })
 	add(3, nfiles > 0, c.stat)
+	add(2, nfiles > 0, c.persist)
 	add(1, nfiles > 0 && w.nfs != nil, c.resolve)
 	if len(opts) == 0 {
 		return
@@ -1510,6 +1512,36 @@ func (c *c16client) stat() {
 		return
 	}
 	w.k.Probe("stat-digest-checked")
+}
+
+// persist asks a file to describe itself for the output path persistency
+// state file (what bb_clientd does for every file when a build ends, while
+// other threads may still be using the file): a file whose digest is known is
+// listed with that digest, any other file is left out. The call must return
+// whatever else is going on, and a digest it reports must be the digest of
+// contents the file had during the call.
+func (c *c16client) persist() {
+	w := c.w
+	f := c.anyFile()
+	from := f.ver()
+	p := virtual.ApplyAppendOutputPathPersistencyDirectoryNode{Directory: &outputpathpersistency.Directory{}, Name: path.MustNewComponent("persisted")}
+	if !f.leaf.VirtualApply(&p) {
+		harness("leaf does not handle ApplyAppendOutputPathPersistencyDirectoryNode")
+	}
+	if len(p.Directory.Files) == 0 {
+		w.k.Probe("persist-without-digest")
+		return
+	}
+	got := p.Directory.Files[0].Digest
+	for v := from; v <= f.ver(); v++ {
+		for _, fn := range digestFns {
+			if want := digestOf(fn, f.versions[v]).GetProto(); want.Hash == got.GetHash() && want.SizeBytes == got.GetSizeBytes() {
+				w.k.Probe("persist-digest-checked")
+				return
+			}
+		}
+	}
+	w.violate("C16/upload-stale-digest", fmt.Sprintf("%s: the persistency entry of %s carries digest %v, which is not the digest of any contents the file had during the call (versions %d..%d, latest %q)", c.name, f, got, from, f.ver(), f.cur()))
 }
 
 // ---------------------------------------------------------------------------
